@@ -420,6 +420,9 @@ func newSConfig(name string, version int, fileSize int, specs [][]txSpec, trunc 
 			}
 		}
 	}
+	if trunc > 0 && cf.minReadable == 1 {
+		panic("harness: truncation of the primary had no effect (configuration would be vacuous)")
+	}
 	for k := range keyset {
 		cf.keys = append(cf.keys, k)
 	}
@@ -470,7 +473,7 @@ type sworld struct {
 	path      []int
 	step      int
 	stop      bool
-	wedged    bool // a panic may have left locks held: do not Close
+	wedged    bool // a panic may have left locks held: Close is guarded
 	last      bool // oracles run on the last event of a path only: every prefix was checked as a node of its own
 }
 
@@ -642,10 +645,25 @@ func (w *sworld) open() error {
 }
 
 func (w *sworld) close() {
-	if w.st != nil && !w.wedged {
-		w.st.Close()
+	if w.st != nil {
+		closeGuarded(w.wedged, func() { w.st.Close() })
 	}
 	os.RemoveAll(w.dir)
+}
+
+// closeGuarded: after a panic locks may still be held; Close then runs on the side and is abandoned if it hangs.
+func closeGuarded(suspect bool, f func()) {
+	if !suspect {
+		f()
+		return
+	}
+	done := make(chan struct{})
+	go func() { defer close(done); lib.Catch(f) }()
+	select {
+	case <-done:
+	case <-time.After(3 * time.Second):
+		c.Add("stores_abandoned_after_panic", 1)
+	}
 }
 
 func (w *sworld) deliver(ev event) {
@@ -953,7 +971,7 @@ var histTrunc = []txSpec{
 	{Ents: []entSpec{{"a", long('1'), ""}, {"b", long('2'), ""}}},
 	{Ents: []entSpec{{"a", long('3'), "deleted"}}},
 	{Ents: []entSpec{{"b", long('4'), ""}}, TxMD: "extra"},
-	{Ents: []entSpec{{"c", "", ""}, {"a", "va4", ""}}},
+	{Ents: []entSpec{{"a", "va4", ""}, {"c", "", ""}}}, // (an empty value as FIRST entry of a later tx would pin the truncation point at offset 0)
 }
 
 var forkMain = []txSpec{
